@@ -21,6 +21,9 @@ def ocls(o):
     if m:
         code = m.group(1)
         if "nonoptional" in o.split(",")[0]: code = "nonoptional"
+        # issues raised by the schema's own checks / refinements form one class: which check fired is a
+        # property of the generated schema, not of the entry point
+        if code in ("too_small", "too_big", "custom", "invalid_format", "not_multiple_of", "checks"): code = "check"
         return "err-" + code
     return "other"
 
@@ -37,6 +40,9 @@ def key(op, impl, M, S):
     p = d.get("P")
     why = (S or "")[len("spec-rejects:"):] if (S or "").startswith("spec-rejects:") else "observation-differs-from-model"
     which = why.split("-")[0]
+    if which == "H":
+        flags = sorted(set(f.split("-")[0] for f in d.get("H", "").split(",") if f))
+        return "%s:history:%s" % (ty, "+".join(flags))
     other = d.get(which) if which in d else None
     extra = ""
     if other is not None and ocls(other) == ocls(p) == "ok": extra = ":other-value"
